@@ -21,8 +21,33 @@ Definition as_op (o : tree) (next : Z) : option (op unit unit tree tree) :=
   | _ => None
   end.
 
+(* DynWeighted as a consumer of erased selectors, on forced lists: [0; k] a leaf that selects index k (k >= 0) or fails
+   with code -k; [1; [[member; weight]..]] a list.  Observed: [55; [0; index] | [1; shape]] with shape
+   [0] EmptyPopulation, [1] ZeroWeightSum, [2; shape] Other(..), [3; code] the leaf's own error *)
+Fixpoint dec_dspec (fuel : nat) (t : tree) : option dspec :=
+  match fuel with
+  | O => None
+  | S f =>
+    match t with
+    | L [A 0; A k] => if k <? 8 then Some (DL k) else None
+    | L [A 1; ms] =>
+      olet ms := tlist (fun m => match m with L [s; A w] => olet s := dec_dspec f s in Some (s, w) | _ => None end) ms in Some (DD ms)
+    | _ => None
+    end
+  end.
+Fixpoint enc_derr (e : derr) : tree :=
+  match e with DEmptyPop => L [A 0] | DZero => L [A 1] | DOther e' => L [A 2; enc_derr e'] | DLeaf c => L [A 3; A c] end.
+Definition judge_consumer (spec out : tree) : option (list Z) :=
+  olet d := dec_dspec 64 spec in
+  match forced 64 d with
+  | Some (inl k) => Some [if tree_eqb out (L [A 0; A k]) then 0 else 2]
+  | Some (inr e) => Some [if tree_eqb out (L [A 1; enc_derr e]) then 0 else 2]
+  | None => None
+  end.
+
 Definition judge (t : tree) : option (list Z) :=
   match t with
+  | L [L [A 5; _; _; _; spec]; L [A 55; out]] => judge_consumer spec out
   | L [_; L [c; A cn; e; A en]] =>
     olet f := as_op c cn in
     let expected := fst (erase (fun m => m) f tt tt) in
